@@ -5,7 +5,7 @@ prop=$1; n=$2; patch=$3; demo=$4
 wt=/tmp/seedcheck/$prop-$n; out=/tmp/mut/confirm/$prop-$n.txt
 mkdir -p /tmp/seedcheck /tmp/mut/confirm
 git -C /repo worktree add --detach "$wt" HEAD >/dev/null 2>&1 || { echo "worktree failed" > "$out"; exit 1; }
-export CARGO_TARGET_DIR=/tmp/seedcheck/target CARGO_NET_OFFLINE=true
+export CARGO_TARGET_DIR=${SEED_TARGET:-/tmp/seedcheck/target} CARGO_NET_OFFLINE=true
 cd "$wt"
 {
 echo "== base $(git rev-parse --short HEAD) patch $patch"
